@@ -8,6 +8,16 @@ TB = ("Trusted: go/ssa (source->SSA), the govc executor/contract evaluator, the 
       "externals and physical bounds are listed in the evidence file on every run.")
 
 CLAIMS = {
+ "C15": dict(
+   text="Deductive proof on the real lookup function with a SYMBOLIC field name: the registry map is evaluated from the package initialiser's SSA, the map lookup forks into one path per registered key plus the not-found path, and 122 postconditions generated from an oracle table transcribed from OpenFlow 1.3.5 Table 12 / OVS meta-flow.h (class, field number, payload width; width doubled in the 8-bit length field and mask flag set when a mask is requested) are proved on every path; unknown names are proved to return an error and nil; results are proved fresh (independent values) and a lemma function proves that mutating one result does not change a second lookup. Header packing: pack and unpack are verified against the OXM header layout for all 2^32 words / all headers with a 7-bit field number, and two lemma functions prove they are exact inverses.",
+   note="Case-insensitivity rests on the assumed contract of strings.ToUpper (uninterpreted function, evaluated concretely on literals). The oracle table was transcribed from the specifications from memory (no network). The race-freedom part is decided as absence of shared mutable state (see C14), not by exploring schedules. " + TB,
+   technique="contract-based deductive verification: symbolic execution of go/ssa with path-per-map-entry, table-generated postconditions, QF_BV lemmas, z3/cvc5",
+   design="DESIGN.md section 4 C15"),
+ "C14": dict(
+   text="Partial, stated honestly: (1) the header generator's closure is verified against a two-state contract (one atomic fetch-and-add of 1 on the process-wide counter per header; the header carries the value the add returned), so with the ASSUMED linearizable contract of sync/atomic.AddUint32 the k-th draw returns start+k and ids are pairwise distinct until 2^32 draws; (2) a whole-program frame scan over the SSA of every library function proves that the counter is referenced only as the first argument of sync/atomic functions and that no other package-level variable is stored to, updated, or leaked by address or by contained reference outside package initialisation (registry lookups return fresh values - proved deductively on FindFieldHeaderByName). Absence of shared mutable state gives race-freedom and sequential equivalence of operations on disjoint values by the standard non-interference argument; no scheduler interleaving is explored.",
+   note="Not decided: anything that needs exploring schedules; races inside dependencies (logrus, math/rand) are assumed away; the per-function frame conditions of encoders/decoders (they modify only their own arguments) are proved under C06/C13/C08 where those are claimed, not here. " + TB,
+   technique="contract-based deductive verification: two-state contract on the atomic id generator + whole-program frame (global-state) obligations from an SSA def-use scan",
+   design="DESIGN.md section 4 C14 and section 5"),
  "C08": dict(
    text="Deductive proof for byte strings of symbolic length and content (no bound below 2^40): every packet-header decoder in package protocol (Ethernet/VLAN, ARP, IPv4, IPv6 with hop-by-hop, routing, fragment headers and options, ICMP, TCP, UDP, IGMPv1/2, IGMPv3 query/record/report, DHCP and its option parser, LLDP TLVs) is verified on its own against a total contract: every index, slice, nil dereference, type assertion, make and division is proved unable to panic, every loop has an inductive invariant and a strictly decreasing variant bounded by the input, and every make() is proved to allocate at most max(4096, len(input)) elements. Callees are used through their contracts only.",
    note="Time is decided as termination with an input-bounded variant, memory as a per-allocation bound (append growth is not bounded separately). encoding/binary.Read and bytes.Buffer.Write are assumed contracts keyed by the static target type; binary.BigEndian.* and bytes.NewBuffer/Len are executed from GOROOT source. " + TB,
